@@ -680,30 +680,28 @@ Proof.
   vm_compute; reflexivity.
 Qed.
 
-(* the hypotheses of the theorem hold on that world, and its conclusion is what is observed *)
+(* the hypotheses of the theorem hold on that world: its conclusion, instantiated *)
+Definition hv_w1 : world := fst (step (fun s => s) hv_w hv_c).
+Definition hv_w2 : world := fst (run_undo hv_w1 1 true).
+
 Example undo_halt_instance :
-  exists w2, run_undo (fst (step (fun s => s) hv_w hv_c)) 1 true = (w2, X0)
-             /\ (exists st0, cur_state hv_w = Some st0 /\ at_state w2 st0)
-             /\ w_unmerged w2 = false /\ w_wt w2 = tree_of (w_objs w2) (w_branch w2).
+  (exists st0, cur_state hv_w = Some st0 /\ at_state hv_w2 st0)
+  /\ w_unmerged hv_w2 = false /\ w_wt hv_w2 = tree_of (w_objs hv_w2) (w_branch hv_w2).
 Proof.
   assert (L : LowerOK (fun s => s)) by (intros s H; exact H).
   destruct (init_inv6 [1;1;1;0]%N) as [I0 P0].
   assert (I6PD : Inv6 hv_w /\ prev_decreasing (w_objs hv_w))
     by (unfold hv_w; apply (run_reach _ L); [reflexivity|exact I0|exact P0]).
   destruct I6PD as [I6 PD].
-  eexists. split; [vm_compute; reflexivity|].
-  match goal with |- (exists st0, _ /\ at_state ?w2 _) /\ _ =>
-    assert (HT : forall so0 st0 so1 st1,
-      w_stack hv_w = Some so0 -> state_of (w_objs hv_w) so0 = Some st0 ->
-      w_stack (fst (step (fun s => s) hv_w hv_c)) = Some so1 ->
-      state_of (w_objs (fst (step (fun s => s) hv_w hv_c))) so1 = Some st1 ->
-      s_prev st1 = Some so0 ->
-      at_state w2 st0 /\ w_unmerged w2 = false /\ w_wt w2 = tree_of (w_objs w2) (w_branch w2))
-  end.
-  { intros so0 st0 so1 st1 A1 A2 A3 A4 A5.
-    eapply (undo_hard_undoes_halted_step _ L hv_w hv_c _ so0 st0 so1 st1 _ I6 PD); try eassumption;
-      try reflexivity; vm_compute; reflexivity. }
-  edestruct HT as (B1 & B2 & B3); [vm_compute; reflexivity..|].
-  split; [|split; assumption].
-  eexists. split; [|exact B1]. vm_compute. reflexivity.
+  assert (A0 : step (fun s => s) hv_w hv_c = (hv_w1, X3)) by (vm_compute; reflexivity).
+  assert (A6 : run_undo hv_w1 1 true = (hv_w2, X0)) by (vm_compute; reflexivity).
+  assert (A1 : w_stack hv_w = Some 22) by (vm_compute; reflexivity).
+  assert (A3 : w_stack hv_w1 = Some 25) by (vm_compute; reflexivity).
+  destruct (state_of (w_objs hv_w) 22) as [st0|] eqn:A2; [|vm_compute in A2; discriminate].
+  destruct (state_of (w_objs hv_w1) 25) as [st1|] eqn:A4; [|vm_compute in A4; discriminate].
+  assert (A5 : s_prev st1 = Some 22). { vm_compute in A4. injection A4 as <-. reflexivity. }
+  destruct (undo_hard_undoes_halted_step _ L hv_w hv_c hv_w1 22 st0 25 st1 hv_w2 I6 PD
+              eq_refl eq_refl A1 A2 A0 A3 A4 A5 A6) as (B1 & B2 & B3).
+  split; [|split; assumption]. exists st0. split; [|exact B1].
+  unfold cur_state. rewrite A1. exact A2.
 Qed.
